@@ -130,7 +130,7 @@ Step(L, it, o, k) ==
 (* that moved the iterator beyond the first key an honest seek would find        *)
 TSUNLegal(L, it, o, k) ==
   /\ o \in {"seekge", "seekprefixge"} /\ it.sko = o /\ k >= it.sk
-  /\ \/ it.st = "after"
+  /\ \/ it.st = "after" /\ ~UpOK(L, it, GEIdx(L, Max2(k, it.lo)))    \* exhausted, and the honest seek finds nothing either
      \/ it.st = "at" /\ GEIdx(L, Max2(k, it.lo)) >= it.pos
 
 (* the entries inside [lo, hi): what a full scan must return, in both directions *)
